@@ -52,7 +52,7 @@ FLOORS = {
     "quick": {
         "trace.compare": 9333, "trace.events": 533333, "arith.node": 86666, "arith.step": 60000, "arith.sum-law": 26666,
         "history.getters": 9333, "run.restart": 2000, "run.coupled-iterations": 1666, "run.nonconverged-cap": 1666, "run.exempt-cycle": 800,
-        "run.halt": 1333, "run.deferred": 2333, "run.reverseAtEOL": 2666, "run.bolForce": 3333, "run.zero-step-cycle": 2000,
+        "run.halt": 1333, "run.deferred": 2333, "run.reverseAtEOL": 2666, "run.bolForce": 3333, "run.disabled-interface-with-an-earlier-bolForce-not-forced-now": 1000, "run.zero-step-cycle": 2000,
         "run.dependencies": 2000, "active.direct": 26666, "excluded.direct": 18666, "node.state": 66666, "arith.visit-order": 9333,
         "stack.order": 9333, "stack.duplicate": 1666,
         # couplers by shape of the coupling value (moved = scripted steps that must NOT count as converged), threshold probes, norm laws
@@ -67,7 +67,7 @@ FLOORS = {
     "thorough": {
         "trace.compare": 140000, "trace.events": 8000000, "arith.node": 1300000, "arith.step": 900000, "arith.sum-law": 400000,
         "history.getters": 140000, "run.restart": 30000, "run.coupled-iterations": 25000, "run.nonconverged-cap": 25000, "run.exempt-cycle": 12000,
-        "run.halt": 20000, "run.deferred": 35000, "run.reverseAtEOL": 40000, "run.bolForce": 50000, "run.zero-step-cycle": 30000,
+        "run.halt": 20000, "run.deferred": 35000, "run.reverseAtEOL": 40000, "run.bolForce": 50000, "run.disabled-interface-with-an-earlier-bolForce-not-forced-now": 15000, "run.zero-step-cycle": 30000,
         "run.dependencies": 30000, "active.direct": 400000, "excluded.direct": 280000, "node.state": 1000000, "arith.visit-order": 140000,
         "stack.order": 140000, "stack.duplicate": 25000,
         "coupler.scalar.moved": 172500, "coupler.1d.moved": 165000, "coupler.2d.moved": 111000, "coupler.2d-ndarray.moved": 54000,
@@ -330,7 +330,7 @@ def gen_config(rng, kind, idx):
             klass = rng.choice(["base", "base", "base", "subA", "subA", "subB"])
         s = {"name": nm, "function": fn, "klass": klass, "index": None if rng.random() < 0.6 else rng.randint(0, k),
              "enabled": rng.random() < 0.8, "bolForce": rng.random() < 0.3, "rev": rng.random() < 0.3,
-             "flagsVia": rng.choice(["kwargs", "setters"]), "coupler": None, "ret": {}, "haltAt": [], "deps": [], "setsRestart": False}
+             "flagsVia": rng.choice(["kwargs", "kwargs", "setters", "setters", "kwargs-after-an-earlier-life"]), "coupler": None, "ret": {}, "haltAt": [], "deps": [], "setsRestart": False}
         for h in HOOKS:
             if rng.random() < 0.5:
                 s["ret"][h] = rng.choice(FALSY[1:])
@@ -684,7 +684,12 @@ def make_classes():
         def createInterfaces(self):
             for s in _CTX["cfg"]["ifaces"]:
                 i = _CTX["classes"][s["klass"]](self.r, self.cs, s)
-                if s["flagsVia"] == "kwargs":
+                if s["flagsVia"] == "kwargs-after-an-earlier-life":
+                    # the object was attached somewhere before (a dependency attached as disabled-but-forced, a duplicate of such an
+                    # interface) and still carries that BOL-forced flag: the bolForce= given now is what counts
+                    i.bolForce(True)
+                    self.addInterface(i, index=s["index"], reverseAtEOL=s["rev"], enabled=s["enabled"], bolForce=s["bolForce"])
+                elif s["flagsVia"] == "kwargs":
                     self.addInterface(i, index=s["index"], reverseAtEOL=s["rev"], enabled=s["enabled"], bolForce=s["bolForce"])
                 else:
                     self.addInterface(i, index=s["index"])
@@ -1085,6 +1090,8 @@ def check_run(rec, H_, cfg, idx):
             rec.hit("run.reverseAtEOL")
         if any(s["bolForce"] and not s["enabled"] for s in stack):
             rec.hit("run.bolForce")
+        if any(s.get("flagsVia") == "kwargs-after-an-earlier-life" and not s["bolForce"] and not s["enabled"] for s in stack):
+            rec.hit("run.disabled-interface-with-an-earlier-bolForce-not-forced-now")
         if any(b == 0 for b in cfg["history"]["bs"]):
             rec.hit("run.zero-step-cycle")
         if any(v for s in stack for v in s["ret"].values()):
